@@ -29,6 +29,7 @@ RULE = ("filter skeletons from the ORM-supported scalar fragment (comparison ope
         "backend); non-trivial = skeleton has at least one value literal and the backend "
         "executed a statement")
 RULE += (" " + 'Also: in-lists of 1000 and 2101 items; schema with partial / plain indexes, fixed-point column, Profile one-to-one.')
+RULE += (" " + 'Value-magnitude lane: 13 skeletons x 7 magnitudes (integers beyond 32/53/63/64 bits, 10**30; strings of 300/5000/70000 characters) x 6 entry styles.')
 ASSUMPTIONS = ["booleans and null are rendered as SQL constants by design (excluded by the "
                "property's quantifier)",
                "values are searched in the driver parameters after the backend's own adaptation "
